@@ -97,6 +97,10 @@ def rule_tag(ctx, py):
                             probs.append((m.lineno, "result is labelled with system %s although its number was "
                                           "computed in S_self" % rv.sys))
                         en = expected_num(op)
+                        if en is not None and rv.num is None:
+                            probs.append((m.lineno, "the magnitude of the result is not an arithmetic expression of the two SI "
+                                          "values that the analysis can follow (it goes through an opaque call): the operator is "
+                                          "expected to apply the same Python operator to the two magnitudes, %r" % (en,)))
                         if en is not None and rv.num is not None and not rv.num.equals(en):
                             probs.append((m.lineno, "the magnitude is %r (a = self, b = the other operand), arithmetic on "
                                           "the SI values gives %r: wrong operand order or sign" % (rv.num, en)))
@@ -285,6 +289,46 @@ def rule_cmp_exact(ctx, py):
     ctx.floor(R, 12)
 
 
+def rule_ctor_label(ctx, py, R="C05.CTOR"):
+    """the constructors of UnitValue / UnitArray that receive a quantity store its number and its label from one and the same
+    object (the given one, or its conversion): `self.value = X.value` goes with `self.units = X.units`.  A label taken from
+    elsewhere re-labels the number without converting it."""
+    n = 0
+    for q in ("units.UnitValue.__init__", "units.UnitArray.__init__"):
+        f = py.fn(q)
+
+        def blocks(stmts):
+            yield stmts
+            for st in stmts:
+                for fld in ("body", "orelse"):
+                    b = getattr(st, fld, None)
+                    if isinstance(b, list) and b and isinstance(st, (ast.If, ast.For, ast.While)):
+                        yield from blocks(b)
+        for blk in blocks(f.body):
+            num = lab = None
+            for st in blk:
+                if isinstance(st, ast.Assign) and len(st.targets) == 1:
+                    t = pyfe.src(st.targets[0])
+                    if t in ("self.value", "self._value"):
+                        num = (st, st.value)
+                    elif t in ("self.units", "self._units"):
+                        lab = (st, st.value)
+                elif isinstance(st, ast.Expr) and isinstance(st.value, ast.Call) and pyfe.call_name(st.value) == "self.set_value" \
+                        and st.value.args:
+                    num = (st, st.value.args[0])
+            if num is None or lab is None:
+                continue
+            v = num[1]
+            if isinstance(v, ast.Attribute) and v.attr in ("value", "_value") and isinstance(v.value, ast.Name):
+                x = v.value.id
+                n += 1
+                ctx.check(pyfe.src(lab[1]) in ("%s.units" % x, "%s._units" % x, "%s.units.copy()" % x), R, lab[0], q,
+                          "%s  /  %s" % (pyfe.src(num[0])[:50], pyfe.src(lab[0])[:40]), "number and label of the same quantity `%s`" % x,
+                          "the number is `%s` but the label is `%s`: when they differ (convert=False, other units given) the number "
+                          "is re-labelled without being converted" % (pyfe.src(v), pyfe.src(lab[1])))
+    ctx.floor(R, 3)
+
+
 def run(ctx):
     py = ctx.py
     rule_tag(ctx, py)
@@ -292,6 +336,7 @@ def run(ctx):
     rule_len(ctx, py)
     rule_units_ops(ctx, py)
     rule_cmp_exact(ctx, py)
+    rule_ctor_label(ctx, py)
     from .. import lints
     lints.run(ctx, "C05", ctx.py, ["units"], truth_floor=28)
     ctx.assume("value-level correctness of operand order and sign in reflected operators (v - self vs self - v) and "
